@@ -380,7 +380,8 @@ pub fn gen_frame(rng: &mut Rng, l: &Value, compressed: bool, o: &GenOpts) -> Vec
     let mut f = vec![0u8, l["type_no"].as_u64().unwrap() as u8];
     if l["custom_body"].as_bool() == Some(true) {
         // Mso: reqi pad ucid plid usertype textstart text
-        let name = gen_text(rng, 8, 0).into_iter().filter(|b| *b != 0).collect::<Vec<u8>>();
+        // the name part may need codepage markers too: `textstart` counts *wire* bytes, not characters
+        let name = gen_text(rng, 8, o.text).into_iter().filter(|b| *b != 0).collect::<Vec<u8>>();
         let msg = gen_text(rng, 24, o.text).into_iter().filter(|b| *b != 0).collect::<Vec<u8>>();
         let with_name = rng.chance(1, 2);
         f.extend_from_slice(&[rng.byte(), 0, rng.byte(), rng.byte(), rng.below(4) as u8, if with_name { name.len() as u8 } else { 0 }]);
@@ -446,12 +447,16 @@ pub fn resolve(outdir: &std::path::Path) {
                     format!("{}{}{}", o, es.join(";"), c)
                 } else { conv(g) }
             };
+            let raw_vals = vals.clone();
             let mut vals: Vec<String> = vals.iter().map(|v| conv_group(v)).collect();
             if kind == "Mso" && vals.len() == 6 {
-                // name and message parts -> textstart (UTF-8 length of the decoded name, as u8) and the joined text
-                let cp = |t: &str| -> String { t.trim_start_matches('s').split('.').filter_map(|x| x.parse::<u32>().ok().and_then(char::from_u32)).collect() };
-                let name = cp(&vals[4]); let msg = cp(&vals[5]);
-                let joined = format!("{}{}", name, msg);
+                // the model keeps the name part and the message part as bytes (each cut at its first NUL). IS_MSO's
+                // text is ONE string: a codepage selected inside the name stays selected after it, so the joined bytes
+                // are decoded in one go; textstart = UTF-8 length of the decoded name (as u8)
+                let bytes_of = |t: &str| -> Vec<u8> { if t.starts_with('S') { unhex(&t[1..]) } else { vec![] } };
+                let (nb, mb) = (bytes_of(&raw_vals[4]), bytes_of(&raw_vals[5]));
+                let name = to_lossy_string(&nb).to_string();
+                let joined = to_lossy_string(&[nb.clone(), mb].concat()).to_string();
                 vals[4] = ((name.len() as u8) as u64).to_string();
                 vals[5] = str_tok(&joined);
             }
